@@ -474,6 +474,8 @@ public:
                     {
                         v["static"] = true;
                         v["qual"] = qualName(vd);
+                        if (vd->getTLSKind() != VarDecl::TLS_None)
+                            v["thread_local"] = true;
                     }
                     if (vd->getType()->isReferenceType())
                         v["ref"] = true;
@@ -1547,6 +1549,13 @@ public:
             flags["implicit"] = true;
         if (fd->isNoReturn())
             flags["noreturn"] = true;
+        if (auto* fpt = fd->getType()->getAs<FunctionProtoType>())
+        {
+            // a written noexcept / noexcept(true): an exception that reaches the boundary ends in std::terminate
+            auto est = fpt->getExceptionSpecType();
+            if (est == EST_BasicNoexcept || est == EST_NoexceptTrue || est == EST_DynamicNone)
+                flags["noexcept"] = true;
+        }
         if (fd->isConstexpr())
             flags["constexpr"] = true;
         bool dependent = fd->isDependentContext();
@@ -1658,6 +1667,11 @@ public:
                     fo["static"] = true;
                     if (vd->getTLSKind() != VarDecl::TLS_None)
                         fo["thread_local"] = true;
+                    {
+                        const VarDecl* def = nullptr;
+                        const Expr* init = vd->getAnyInitializer(def);
+                        fo["init"] = init ? JE(init) : json::Value(nullptr);
+                    }
                     fo["ref"] = false;
                     fo["ptr"] = vd->getType()->isPointerType();
                     fields.push_back(std::move(fo));
